@@ -51,12 +51,28 @@ def run_translators():
     return ok, '\n'.join(logs)
 
 
-def make_coq(targets=None, timeout=1500):
-    """returns (ok, log)"""
+def restore_missing_gen():
+    """a translator that fails leaves its last output in place; on a fresh checkout there is none, so the
+    committed copy made on the unchanged tree (coq/gen.baseline) stands in. Only ever used to SEARCH for a
+    failing input after the failure itself has been reported."""
+    base = os.path.join(COQ, 'gen.baseline')
+    os.makedirs(os.path.join(COQ, 'gen'), exist_ok=True)
+    for f in glob.glob(os.path.join(base, '*.v')):
+        dst = os.path.join(COQ, 'gen', os.path.basename(f))
+        if not os.path.exists(dst):
+            import shutil
+            shutil.copy(f, dst)
+
+
+def make_coq(targets=None, timeout=1500, allow_stale=False):
+    """returns (ok, log). allow_stale: build even when a translator failed, with the last generated (or the
+    baseline) file of that translator - for the search of a failing input only."""
     with Lock('coq'):
         tok, tlog = run_translators()
         if not tok:
-            return False, 'TRANSLATOR FAILED\n' + tlog
+            if not allow_stale:
+                return False, 'TRANSLATOR FAILED\n' + tlog
+            restore_missing_gen()
         coq_project()
         cmd = ['timeout', str(timeout), 'make', '-j16'] + (targets or [])
         p = subprocess.run(cmd, cwd=COQ, stdout=subprocess.PIPE, stderr=subprocess.STDOUT, text=True)
